@@ -241,6 +241,73 @@ func ruleT6(c *Ctx) {
 		})
 		c.check(found, "T6", "calculateModRM|["+base+"] needs disp8=0", c.L.Pos(fd.Pos()), "["+base+"] has no mod=00 encoding (that slot means absolute address): it must be emitted as mod=01 with a zero disp8")
 	}
+	// SIB base number 5 is EBP only when a base register was written: a local that starts as 5
+	// ("no base") must not, by its value alone, select an encoding with a base (mod != 00)
+	{
+		five := map[types.Object]bool{}
+		ast.Inspect(fd.Body, func(n ast.Node) bool {
+			switch x := n.(type) {
+			case *ast.ValueSpec:
+				for i, nm := range x.Names {
+					if i < len(x.Values) {
+						if v, ok := constInt(info, x.Values[i]); ok && v == 5 {
+							five[info.Defs[nm]] = true
+						}
+					}
+				}
+			case *ast.AssignStmt:
+				if x.Tok == token.DEFINE && len(x.Lhs) == len(x.Rhs) {
+					for i, l := range x.Lhs {
+						if id, ok := l.(*ast.Ident); ok {
+							if v, ok := constInt(info, x.Rhs[i]); ok && v == 5 {
+								five[info.Defs[id]] = true
+							}
+						}
+					}
+				}
+			}
+			return true
+		})
+		nb := 0
+		ast.Inspect(fd.Body, func(n ast.Node) bool {
+			is, ok := n.(*ast.IfStmt)
+			if !ok {
+				return true
+			}
+			tests5, namesBase := false, false
+			ast.Inspect(is.Cond, func(m ast.Node) bool {
+				switch y := m.(type) {
+				case *ast.BinaryExpr:
+					if y.Op == token.EQL {
+						if id, ok := ast.Unparen(y.X).(*ast.Ident); ok && five[info.Uses[id]] {
+							if v, ok := constInt(info, y.Y); ok && v == 5 {
+								tests5 = true
+							}
+						}
+					}
+				case *ast.SelectorExpr:
+					if y.Sel.Name == "BaseReg" {
+						namesBase = true
+					}
+				}
+				return true
+			})
+			if !tests5 {
+				return true
+			}
+			setsMod := false
+			for _, st := range is.Body.List {
+				if rhs := assignTo([]ast.Stmt{st}, "mod"); rhs != nil {
+					if v, ok := constInt(info, rhs); ok && v != 0 {
+						setsMod = true
+					}
+				}
+			}
+			nb++
+			c.check(!setsMod || namesBase, "T6", fmt.Sprintf("calculateModRM|base number 5 branch#%d", nb), c.L.Pos(is.Pos()), "SIB base=101b with mod=00 means `no base, disp32`; a branch taken for base number 5 alone must not switch to mod=01/10 (that would put EBP into an address that has no base) unless it also tests that the base register is EBP")
+			return true
+		})
+	}
 	// layouts on SSA
 	f := c.L.SSAFunc("internal/codegen", "calculateModRM")
 	if f != nil {
